@@ -259,7 +259,7 @@ fn rfc9110_interval(r: Range, len: u64) -> Option<(u64, u64)> {
 
 fn ranges(acc: &mut Acc, tier: Tier) {
     // (a) all values: first,last,suffix,length <= 12 plus boundary values
-    let mut vals: Vec<u64> = (0..=12).collect();
+    let mut vals: Vec<u64> = (0..=tier.pick(16, 24)).collect();
     vals.extend([4095, 4096, 4097, (1 << 31) - 1, 1 << 31, (1 << 32) - 1, 1 << 32, (1u64 << 63) - 2, (1u64 << 63) - 1]);
     let mut rs: Vec<Range> = Vec::new();
     for &f in &vals {
@@ -303,7 +303,7 @@ fn ranges(acc: &mut Acc, tier: Tier) {
     }
     // (b) all strings "bytes=" + <= n symbols over the alphabet, plus prefix spellings
     let alpha = ['0', '1', '9', '-', ',', ' ', '+', 'a'];
-    let n = tier.pick(5, 6);
+    let n = tier.pick(6, 7);
     let mut tails: Vec<String> = vec![String::new()];
     let mut layer = vec![String::new()];
     for _ in 0..n {
@@ -492,7 +492,7 @@ pub fn run(ctx: &Ctx) -> (Acc, Report) {
     mimes(&mut acc);
     let rep = Report {
         level: "exploration",
-        rule: "timestamps: full product of boundary fields (9 years x 3 months x valid days of {1,28,29,30,31} x 3 hours x 2 minutes x 2 seconds x 3 millisecond values x 8 (thorough 12) UTC offsets) parsed from RFC 3339 and re-emitted in all 3 formats; ranges: all (first,last,suffix,length) over 0..12 and 9 boundary values incl. 2^63-1, every string bytes= + <=5 (thorough 6) symbols over {0,1,9,-,',',' ',+,a}, prefix spellings and 2^63/2^64 boundaries; copy sources: 3 buckets x 22 keys x 5 version ids, as a client encodes them (with/without leading slash) and as the library encodes them; content types: 5x5x6 grammar product + 11 malformed. Oracles: proleptic-Gregorian arithmetic cross-checked per instant with aws-smithy-types, RFC 9110 single-range grammar and interval function, RFC 3986 percent codec. Distinct by text.".into(),
+        rule: "timestamps: full product of boundary fields (9 years x 3 months x valid days of {1,28,29,30,31} x 3 hours x 2 minutes x 2 seconds x 3 millisecond values x 8 (thorough 12) UTC offsets) parsed from RFC 3339 and re-emitted in all 3 formats; ranges: all (first,last,suffix,length) over 0..16 (thorough 0..24) and 9 boundary values incl. 2^63-1, every string bytes= + <=6 (thorough 7) symbols over {0,1,9,-,',',' ',+,a}, prefix spellings and 2^63/2^64 boundaries; copy sources: 3 buckets x 22 keys x 5 version ids, as a client encodes them (with/without leading slash) and as the library encodes them; content types: 5x5x6 grammar product + 11 malformed. Oracles: proleptic-Gregorian arithmetic cross-checked per instant with aws-smithy-types, RFC 9110 single-range grammar and interval function, RFC 3986 percent codec. Distinct by text.".into(),
         exhaustive: true,
         extra: json!({}),
         assumptions: vec!["range strings with lenient list syntax (blanks, empty elements), a non-lower-case unit, or a suffix length >= 2^63 are recorded, not judged".into()],
